@@ -39,14 +39,17 @@ def _strip(fn):
     return fn
 
 
-WORLDS_QUICK = ['chain3', 'mount2', 'mount2p', 'uses2']
-WORLDS_ALL = ['chain3', 'diamond', 'mount2', 'mount2p', 'uses2', 'parts', 'optpat', 'ctxmove', 'types_line']
+WORLDS_QUICK = ['chain3', 'mount2', 'mount2p', 'uses2', 'parts_ext', 'optns']
+WORLDS_ALL = ['chain3', 'diamond', 'mount2', 'mount2p', 'uses2', 'parts_ext', 'optns', 'parts', 'optpat', 'ctxmove', 'types_line']
 
 
 def plan(tier):
     out = []
     for name in (WORLDS_QUICK if tier == 'quick' else WORLDS_ALL):
         desc = families.ALL[name]()
+        if name == 'chain3':
+            desc = families.chain3(run='args')  # inputs and parameters reach run() as arguments
+            desc['_shared_cfg'] = True          # variants are edits of one config file in place
         faults = [(k, 'raise') for k in list(desc['tasks'])[:2]]
         if name == 'types_line':
             sp = specs.build(desc, ops=('new', 'value', 'tforce', 'restart'), slots=1, tasks=['t0', 't5', 't8', 't10', 't11'], delete_flags=(False,), force_tasks=None)
@@ -106,6 +109,9 @@ def replay(case):
         vs, n = procleg._job((families.ALL[case['world']](), case['segs'], 'C01', 0))
         return [V(v['signature'], v['what'], v['case']) for v in vs]
     desc = families.ALL[case['world'] if case['world'] != 'types' else 'types_line']()
+    if case['world'] == 'chain3':
+        desc = families.chain3(run='args')
+        desc['_shared_cfg'] = True
     sp = specs.build(desc, ops=('new',))
     vs, c, ov = histories.run_history(desc, case['hist'], judge(desc, sp))
     return vs
